@@ -50,6 +50,7 @@ type TSOpt struct {
 
 type TS struct {
 	Srv     *hotline.Server
+	Outer   string // directory created in /var/tmp and removed by Close (the sandbox is four levels below it)
 	Dir     string // sandbox (contains config/ and canaries)
 	Cfg     string
 	Root    string
@@ -97,11 +98,17 @@ func writeAccount(dir string, a AcctSpec) error {
 const emptyNews = "Categories: {}\n"
 
 func newTS(opt TSOpt) (*TS, error) {
-	dir, err := os.MkdirTemp("/var/tmp", "mobius-verif-")
+	outer, err := os.MkdirTemp("/var/tmp", "mobius-verif-")
 	if err != nil {
 		return nil, err
 	}
-	ts := &TS{Dir: dir, Cfg: filepath.Join(dir, "config"), stopCol: make(chan struct{})}
+	// the sandbox sits four levels below the directory that is removed afterwards: code under test
+	// that escapes the sandbox by a few ".." (seeded changes do) still cannot litter /var/tmp
+	dir := filepath.Join(outer, "o1", "o2", "o3", "o4")
+	if err := os.MkdirAll(dir, 0755); err != nil {
+		return nil, err
+	}
+	ts := &TS{Outer: outer, Dir: dir, Cfg: filepath.Join(dir, "config"), stopCol: make(chan struct{})}
 	ts.Root = filepath.Join(ts.Cfg, "Files")
 	ts.Users = filepath.Join(ts.Cfg, "Users")
 	for _, d := range []string{ts.Cfg, ts.Root, ts.Users} {
@@ -205,6 +212,7 @@ func (ts *TS) Close() {
 		close(ts.stopCol)
 	}
 	os.RemoveAll(ts.Dir)
+	os.RemoveAll(ts.Outer)
 }
 
 // ---------------------------------------------------------------- direct mode
